@@ -82,6 +82,7 @@ type Out struct {
 	EventLog  []simrt.Event   `json:"events,omitempty"`
 	WallMS    int64           `json:"wall_ms"`
 	Summaries int             `json:"summaries,omitempty"`
+	DupIDs    []string        `json:"dup_ids,omitempty"` // distinct summaries that were handed the same "unique" id
 	Globals   int             `json:"globals,omitempty"`
 }
 
@@ -355,6 +356,7 @@ func runAnalysis(j *Job, out *Out, workDir string) {
 	}
 	if graph != nil && pv == nil {
 		out.Summaries = len(graph.Summaries)
+		out.DupIDs = duplicateSummaryIDs(graph)
 		v, checks := checkGraph(graph)
 		for x := range midViol {
 			v = append(v, x)
@@ -367,6 +369,34 @@ func runAnalysis(j *Job, out *Out, workDir string) {
 		out.C17 = v
 		out.C17Checks = checks
 	}
+}
+
+// duplicateSummaryIDs lists ids carried by more than one summary graph. Ids come from a counter shared by the summary
+// workers (dataflow.GetUniqueFunctionID); two graphs with one id mean an update of that counter was lost.
+func duplicateSummaryIDs(graph *dataflow.InterProceduralFlowGraph) []string {
+	byID := map[uint32]map[*dataflow.SummaryGraph]string{}
+	for f, sg := range graph.Summaries {
+		if sg == nil || f == nil {
+			continue
+		}
+		if byID[sg.ID] == nil {
+			byID[sg.ID] = map[*dataflow.SummaryGraph]string{}
+		}
+		byID[sg.ID][sg] = f.String()
+	}
+	var out []string
+	for id, m := range byID {
+		if len(m) > 1 {
+			var names []string
+			for _, n := range m {
+				names = append(names, n)
+			}
+			sort.Strings(names)
+			out = append(out, fmt.Sprintf("id %d: %s", id, strings.Join(names, ", ")))
+		}
+	}
+	sort.Strings(out)
+	return out
 }
 
 func nodePos(prog *ssa.Program, n dataflow.GraphNode) string {
